@@ -83,7 +83,10 @@ func (s *Server) doScanCommon(cmd redcon.Command) ([]interface{}, []byte, error)
 			results = make([]interface{}, length)
 			for i, h := range handlers {
 				wg.Add(1)
-				cmds[i].Args[countIndex] = []byte(strconv.Itoa(everyCount))
+				if countIndex > 0 {
+					// without the count argument there is nothing to rewrite (index 0 is the command name)
+					cmds[i].Args[countIndex] = []byte(strconv.Itoa(everyCount))
+				}
 				go func(index int, handle common.MergeCommandFunc) {
 					defer wg.Done()
 					var err error
